@@ -173,9 +173,14 @@ PARAM_VALUES = {
 }
 
 
+# falsy-but-legal values (e.g. the M*=0 and chi=0 presets of Kaminski 2001/2004)
+PARAM_ZERO_VALUES = {"gbm_mobility": 0, "gbs_threshold": 0.0, "nucleation_efficiency": 0.0}
+
+
 def config_case():
     return st.fixed_dictionaries(
         {
+            "zeros": st.booleans(),
             "mode": st.sampled_from(["mesh", "velgrad", "paths", "none"]),
             "name": st.one_of(st.none(), st.sampled_from(["run1", "pydrex-test", "a b"])),
             "params_present": st.booleans(),
@@ -302,8 +307,9 @@ def build_toml(case, tmp):
         par["initial_olivine_fabric"] = case["fabric"]
         exp_par["initial_olivine_fabric"] = _core.MineralFabric["olivine_" + case["fabric"]]
     for k in case["pkeys"]:
-        par[k] = PARAM_VALUES[k]
-        exp_par[k] = tuple(PARAM_VALUES[k]) if isinstance(PARAM_VALUES[k], list) else PARAM_VALUES[k]
+        val = PARAM_ZERO_VALUES[k] if case.get("zeros") and k in PARAM_ZERO_VALUES else PARAM_VALUES[k]
+        par[k] = val
+        exp_par[k] = tuple(val) if isinstance(val, list) else val
     if fault == "fractions_sum":
         par["phase_assemblage"] = ["olivine", "enstatite"]
         par["phase_fractions"] = [[0.7, 0.2], [0.5, 0.6], [0.7, 0.3000001]][case["j"] % 3]
